@@ -543,6 +543,8 @@ func local() []cat.Program {
 			Files: map[string]string{"page.vuego": `<p :a="who" :b="num" style="x:1;y:2" :style="sty" :c="who | upper">ok</p><p :a="who" :b="num" :z="who | nosuchfilter">bad</p>`},
 			Data:  map[string]vals.V{"who": s("xfbWHO"), "num": n(2), "sty": s("y:3;z:4")}},
 	}
+	// print twins: numbers equal under == that print differently (see floats_test.go)
+	ps = append(ps, printTwins()...)
 	return ps
 }
 
